@@ -464,9 +464,24 @@ func (s *Sim) runTask(t *Task, counted bool) {
 		s.lastSite = t.req.site
 	}
 	if t.req.kind == opLock && !t.lockArrived {
-		// the task now executes its Lock call
-		if ls := s.lockOf(t.req.obj, t.req.keep); ls.writer || ls.readers > 0 {
-			// taken: from now on the task is a pending writer and stays parked until the mutex is free
+		// the task now executes its Lock call (or, queued behind another writer, gets the writers' mutex)
+		ls := s.lockOf(t.req.obj, t.req.keep)
+		switch {
+		case ls.writer:
+			// Held by a writer: the task queues on the writers' mutex. It has NOT yet announced itself to readers -
+			// in sync.RWMutex that happens only after the writers' mutex was acquired. The readers that wait for
+			// the current writer are let in by its Unlock before this task can get any further.
+			if !t.lockQueued {
+				t.lockQueued = true
+				if counted || s.cfg.KeepLog {
+					s.logEvent(t, t.req.site, "lock-wait", "behind a writer")
+				}
+			}
+			s.lastRan = t
+			return
+		case ls.readers > 0:
+			// held by readers: the task announces itself (new readers wait from now on) and waits for them
+			t.lockQueued = false
 			t.lockArrived = true
 			ls.pendingW++
 			if counted || s.cfg.KeepLog {
@@ -475,6 +490,7 @@ func (s *Sim) runTask(t *Task, counted bool) {
 			s.lastRan = t
 			return
 		}
+		t.lockQueued = false
 	}
 	info := s.grant(t)
 	if counted || s.cfg.KeepLog {
